@@ -52,7 +52,7 @@ OPS = [
     ("chunked",    "X.chunked(2)",         "q", "%s.chunked(2)"),
     ("flatted",    "X.flatted()",          "q", "%s.flatted()"),
     ("as_const",   "X.as_const()",         "q", "%s.as_const()"),
-    ("move",       "std::move(c16::lvalue(X))",         "q", "std::move(%s)"),
+    ("move",       "std::move(c16::lvalue<S>(X))",         "q", "std::move(%s)"),
     # thorough only
     ("celements",  "X.celements()",        "t", "%s.celements()"),
     ("const_elements", "X.const_elements()", "t", "%s.const_elements()"),
@@ -68,7 +68,7 @@ OPS = [
     ("plus1",      "c16::obj(X) + 1",                "t", "(%s + 1)"),
     ("origin",     "X.origin()",           "t", "%s.origin()"),
     ("data",       "X.data()",             "t", "%s.data()"),
-    ("std_as_const", "std::as_const(c16::lvalue(X))",   "t", "std::as_const(%s)"),
+    ("std_as_const", "std::as_const(c16::lvalue<S>(X))",   "t", "std::as_const(%s)"),
     # naming an expression: `auto&& v = <expr>;` then `v` is an lvalue; `auto const& v = <expr>;` a const lvalue
     ("bind_fwd",   "static_cast<std::remove_reference_t<S>&>(c16::obj(x))",       "t", "BIND(%s)"),
     ("bind_const", "static_cast<std::remove_reference_t<S> const&>(c16::obj(x))", "t", "CBIND(%s)"),
@@ -116,7 +116,7 @@ namespace c16 {
   // guards: `~x`, `x + 1`, `auto&& v = x` are only view/handle operations (on a prvalue element they make a temporary copy);
   // std::move / std::as_const are applied to named objects (lvalues) only
   template<class A, std::enable_if_t<!std::is_arithmetic_v<std::remove_cv_t<std::remove_reference_t<A>>>, int> = 0> constexpr auto obj(A&& a) -> A&& { return static_cast<A&&>(a); }
-  template<class A> constexpr auto lvalue(A& a) -> A& { return a; }
+  template<class S, class A, std::enable_if_t<std::is_lvalue_reference_v<S>, int> = 0> constexpr auto lvalue(A& a) -> A& { return a; }
   template<class A, class B> constexpr auto adl_swap(A&& a, B&& b) -> decltype((void)swap(std::forward<A>(a), std::forward<B>(b))) { swap(std::forward<A>(a), std::forward<B>(b)); }
   // `auto w = <named view>;`  (std::decay_t<S> w(expr))
   template<class A> constexpr auto copy_into_named(A&& a) -> decltype((void)std::decay_t<A>(std::forward<A>(a))) { std::decay_t<A> w(std::forward<A>(a)); (void)w; }
@@ -515,7 +515,10 @@ def bfs(gen, roots):
         res = explore_many(new)
         for ns, r in zip(new, res):
             if r["name"] != ns["name"]:
-                raise RuntimeError(f"state typedef chain gives {r['name']} but the edge said {ns['name']}")
+                # g++ may print one type in two ways (default template arguments elided or not); the chain typedef IS the edge's
+                # decltype, so both names denote this state
+                by_name.setdefault(r["name"], ns)
+                r = dict(r, name=ns["name"], printed_as=r["name"])
             ns.update(r)
         frontier = new
     return states, by_name, root_ids
@@ -739,6 +742,8 @@ def main(argv):
     if tier not in ("quick", "thorough"):
         tier = "quick"
     work = work or os.path.join(HERE, ".build", "C16", "gen")
+    if os.path.exists(jpath):
+        os.unlink(jpath)          # a failing run must not leave a stale table behind
     t0 = time.time()
     gen = Gen(repo, tier, work)
     gen.build_prelude()
